@@ -33,6 +33,10 @@ def catalogue(tier, mutant=None):
     for pres in range(4):
         J["M7.P%d" % pres] = planunit.job("Plan.UnmarkDependents.contract.P%d" % pres, "plan_m7_unmark.cc", P + ["UnmarkDependents"], ["PRES=%d" % pres], mutant, rec=["UnmarkDependents"],
                                           bound="a node with two consumers (2 outputs / 1 output), plan membership mask %d, symbolic marks; recursion by contract (R1)" % pres)
+    for nd in (1, 2):
+        J["M9.N%d" % nd] = planunit.job("Plan.RefreshDyndepDependents.contract.n%d" % nd, "plan_m9_refresh.cc", P + ["RefreshDyndepDependents", "EdgeWanted"], ["NDEP=%d" % nd], mutant,
+                                        canaries=2 if nd == 2 else 1,
+                                        bound="%d collected dependents; want states, re-scan verdicts (dirty / validation found / error) and AddTarget result symbolic; UnmarkDependents, RecomputeDirty, AddSubTarget by contract" % nd)
     J["M8"] = planunit.job("Plan.ScheduleInitialEdges.contract", "plan_m8_initial.cc", P + ["ScheduleInitialEdges", "AllInputsReady"], ["NE=%d" % (3 if tier == "thorough" else 2)], mutant,
                            bound="%d planned edges in two pools, symbolic want states, readiness and pool depths; callee ScheduleWork by contract" % (3 if tier == "thorough" else 2),
                            canaries=3 if tier == "thorough" else 2, timeout=1800, weight=50.0)
